@@ -192,6 +192,14 @@ def composite_units() -> List[Unit]:
     wide_fields.append(L.Field("last", 255, L.Uint(7)))
     wide = L.Message("Wide", wide_fields)
     out.append(Unit("composite:wide", L.Schema("t_wide", [wide]), [wide], tags=("composite", "traditional")))
+    # --- three levels of nesting next to a shallower definition with the same inner names
+    r_shallow = L.Message("Reading", [L.Field("v", 1, L.Uint(3))])
+    cell_top = L.Message("Cell", [L.Field("r", 1, r_shallow), L.Field("k", 2, L.Uint(2))], nested=[r_shallow])
+    r_deep = L.Message("Reading", [L.Field("w", 1, L.Int(7)), L.Field("z", 2, L.Uint(2))])
+    cell_in = L.Message("Cell", [L.Field("r", 1, r_deep), L.Field("rs", 2, L.Array(r_deep, 2))], nested=[r_deep])
+    pack = L.Message("Pack", [L.Field("c", 1, cell_in), L.Field("t", 2, L.Uint(4))], nested=[cell_in])
+    top3 = L.Message("Top", [L.Field("p", 1, pack), L.Field("c", 2, cell_top), L.Field("e", 3, L.Bool())])
+    out.append(Unit("composite:deep-same-names", L.Schema("t_deep", [cell_top, pack, top3]), [cell_top, pack, top3], tags=("composite", "traditional")))
     # --- long field names (the C JSON key is written by one formatted call)
     ln = L.Message("LongNames", [L.Field("a_field_name_that_is_forty_characters_xx", 1, L.Uint(9)),
                                  L.Field("b" * 64, 2, L.Int(7)), L.Field("brief", 3, L.Bool())])
